@@ -105,6 +105,8 @@ Record Inv (g : cfg) : Prop := mkInv {
   i_cn : cn_close (cn g) + winners g <= 1;
   i_sc : sock_closed (cn g) = (0 <? sock_closes (cn g));
   i_reply : cn_reply (cn g) + r_can_reply (rd g) <= 1;
+  i_once : cn_close (cn g) + cn_reply (cn g) <= (if cn_once (cn g) then 1 else 0);
+  i_once2 : cn_once (cn g) = true -> 1 <= cn_close (cn g) + cn_reply (cn g) \/ sock_closed (cn g) = true;
   i_hsopen : hs_open (cn g) = h_mid (hs g);
   i_pre : h_pre (hs g) = true -> installed (cn g) = false;
   i_run : h_run (hs g) = true -> installed (cn g) = true;
@@ -129,7 +131,7 @@ Proof. constructor; cbn; intros; try congruence; try lia; auto. Qed.
 
 Lemma inv_spawn g : Inv g -> Inv (exec SpawnClose g).
 Proof.
-  intros [H1 H2 H3 H4 H5 H6 H7 H8 H9 H10 H11 H12].
+  intros [H1 H2 H3 H4 H5 H6 HO HO2 H7 H8 H9 H10 H11 H12].
   destruct g as [c h r l]; cbn in *.
   constructor; cbn; auto.
   - intro E. destruct (H2 E) as (A & B & C & D). repeat split; auto.
@@ -141,7 +143,7 @@ Qed.
 
 Lemma inv_env e g : Inv g -> Inv (exec (Env e) g).
 Proof.
-  intros [H1 H2 H3 H4 H5 H6 H7 H8 H9 H10 H11 H12].
+  intros [H1 H2 H3 H4 H5 H6 HO HO2 H7 H8 H9 H10 H11 H12].
   destruct g as [c h r l]. destruct c. cbn in *.
   destruct e; cbn.
   - (* ECallHandshake *)
@@ -172,7 +174,7 @@ Qed.
 
 Lemma inv_hs b g : Inv g -> Inv (exec (StepHs b) g).
 Proof.
-  intros [H1 H2 H3 H4 H5 H6 H7 H8 H9 H10 H11 H12].
+  intros [H1 H2 H3 H4 H5 H6 HO HO2 H7 H8 H9 H10 H11 H12].
   destruct g as [c h r l]. destruct c. cbn in *.
   destruct h as [| | | |x|x]; cbn.
   - constructor; cbn; auto.
@@ -194,7 +196,7 @@ Qed.
 
 Lemma inv_reader g : Inv g -> Inv (exec StepReader g).
 Proof.
-  intros [H1 H2 H3 H4 H5 H6 H7 H8 H9 H10 H11 H12].
+  intros [H1 H2 H3 H4 H5 H6 HO HO2 H7 H8 H9 H10 H11 H12].
   destruct g as [c h r l]. destruct c. unfold winners, sockers in *. cbn in *.
   destruct r as [| | |k|p| |]; cbn.
   - constructor; cbn; auto.
@@ -202,7 +204,7 @@ Proof.
     destruct can_rd; [|destruct sock_closed]; constructor; unfold winners, sockers; cbn in *; auto;
       try congruence; try lia.
   - (* RReply *)
-    destruct sock_closed; constructor; unfold winners, sockers; cbn in *; auto; try congruence; try lia.
+    destruct cn_once, sock_closed; constructor; unfold winners, sockers; cbn in *; auto; try congruence; try lia.
   - (* RClassify *)
     destruct k; cbn; [| |destruct closed| |destruct est];
       constructor; unfold winners, sockers; cbn in *; auto; try congruence; try lia;
@@ -240,7 +242,7 @@ Qed.
 
 Lemma inv_user i g : Inv g -> Inv (exec (StepUser i) g).
 Proof.
-  intros HI. pose proof HI as [H1 H2 H3 H4 H5 H6 H7 H8 H9 H10 H11 H12].
+  intros HI. pose proof HI as [H1 H2 H3 H4 H5 H6 HO HO2 H7 H8 H9 H10 H11 H12].
   destruct g as [c h r l]. cbn in *.
   destruct (nth_error l i) as [u|] eqn:En; [|exact HI].
   pose proof (upd_sum u_w l i u) as SW. pose proof (upd_sum u_s l i u) as SS.
@@ -281,7 +283,7 @@ Proof.
     + specialize (SW (UC CSock) En). specialize (SS (UC CSock) En).
       assert (closed = true) by (destruct closed; auto; specialize (Hopen eq_refl); discriminate).
       subst. specialize (H3 eq_refl). rewrite andb_true_r.
-      destruct e; constructor; unfold winners, sockers; cbn in *; auto; try congruence; try lia.
+      destruct e, cn_once; constructor; unfold winners, sockers; cbn in *; auto; try congruence; try lia.
     + specialize (SW (UC CRet) En). specialize (SS (UC CRet) En).
       assert (closed = true) by (destruct closed; auto; specialize (Hopen eq_refl); discriminate).
       subst. specialize (H3 eq_refl).
@@ -357,42 +359,60 @@ Definition ops_two_close_notify : list op :=
    StepReader; StepReader;                        (* read loop: classify, close(false) loses *)
    StepUser 0; StepUser 0; StepUser 0; StepUser 0 (* cancels, established?, close_notify *)].
 
-Theorem close_notify_total_at_most_once_refuted :
-  exists ops, let c := cn (run ops (cfg0 false false)) in
-    cn_close c = 1 /\ cn_reply c = 1 /\ cn_close c + cn_reply c = 2.
-Proof. exists ops_two_close_notify. vm_compute. auto. Qed.
+(* One endpoint writes close_notify at most once in total - the reply of the read loop and the
+   close_notify of the application's Close() go through the same sync.Once - over every
+   interleaving and any number of callers. *)
+Theorem close_notify_total_le1 d v ops :
+  let c := cn (run ops (cfg0 d v)) in cn_close c + cn_reply c <= 1.
+Proof.
+  cbn. pose proof (i_once _ (inv_reachable d v ops)) as H.
+  destruct (cn_once (cn (run ops (cfg0 d v)))); lia.
+Qed.
 
-Theorem close_notify_total_le2 d v ops :
-  let c := cn (run ops (cfg0 d v)) in cn_close c + cn_reply c <= 2.
-Proof. cbn. pose proof (cn_close_le1 d v ops). pose proof (cn_reply_le1 d v ops). lia. Qed.
+(* The schedule that used to put two records on the wire before sendCloseNotify existed
+   (reply written, application Close() wins the closeLock region, goes on to its own
+   close_notify step): now one record. *)
+Example former_two_close_notify_schedule :
+  let c := cn (run ops_two_close_notify (cfg0 false false)) in
+  cn_close c = 0 /\ cn_reply c = 1 /\ cn_once c = true /\ closed c = true.
+Proof. vm_compute. auto. Qed.
 
 (* ---------- monotonicity facts used below ---------- *)
 
+Definition total (c : conn) : nat := cn_close c + cn_reply c.
+(* "if the Once is consumed then a record is on the wire" *)
+Definition once_sent (c : conn) : Prop := cn_once c = true -> 1 <= total c.
+
 Ltac mono :=
-  cbn;
+  cbn; unfold send_cn_close, send_cn_reply, once_sent, total;
   repeat match goal with
          | |- context [if ?b then _ else _] => destruct b eqn:?
          | |- context [match ?x with Some _ => _ | None => _ end] => destruct x eqn:?
          end;
-  cbn; repeat split; auto; try congruence; try lia.
+  cbn; repeat split; auto; try congruence; try lia; intros; try congruence; try lia.
 
 Lemma user_step_mono u c :
   let c' := snd (user_step u c) in
-  est c' = est c /\ cn_close c <= cn_close c' /\ (closed c = true -> closed c' = true).
+  est c' = est c /\ cn_close c <= cn_close c' /\ (closed c = true -> closed c' = true) /\
+  total c <= total c' /\ (once_sent c -> once_sent c').
 Proof.
   destruct u as [p| |]; [destruct p as [|w i|w i| |e| |]| |]; mono.
+  all: unfold once_sent, total in *; cbn in *; try (specialize (H eq_refl)); try lia; auto.
 Qed.
 
 Lemma reader_step_mono r c :
   let c' := snd (reader_step r c) in
-  est c' = est c /\ cn_close c <= cn_close c' /\ (closed c = true -> closed c' = true).
+  est c' = est c /\ cn_close c <= cn_close c' /\ (closed c = true -> closed c' = true) /\
+  total c <= total c' /\ (sock_closed c = false -> once_sent c -> once_sent c').
 Proof.
   destruct r as [| | |k|p| |]; [| | |destruct k|destruct p as [|w i|w i| |e| |]| |]; mono.
+  all: unfold once_sent, total in *; cbn in *; try lia; auto.
 Qed.
 
 Lemma hs_step_mono b h r c :
   let c' := snd (hs_step b h r c) in
-  est c' = est c /\ cn_close c' = cn_close c /\ closed c' = closed c.
+  est c' = est c /\ cn_close c' = cn_close c /\ closed c' = closed c /\
+  total c' = total c /\ cn_once c' = cn_once c.
 Proof.
   destruct h as [| | | |x|x]; [| | |destruct b|destruct r|]; mono.
 Qed.
@@ -400,82 +420,122 @@ Qed.
 Lemma env_step_mono e g :
   let g' := env_step e g in
   (est (cn g) = true -> est (cn g') = true) /\ cn_close (cn g') = cn_close (cn g) /\
-  closed (cn g') = closed (cn g) /\ us g' = us g.
+  closed (cn g') = closed (cn g) /\ us g' = us g /\
+  total (cn g') = total (cn g) /\ cn_once (cn g') = cn_once (cn g).
 Proof.
   destruct g as [c h r l]; destruct e; cbn;
     try (destruct h; cbn); try (destruct r; cbn); mono.
 Qed.
 
-(* ---------- exactly one close_notify when the application closes an established open
-   connection ---------- *)
+(* ---------- exactly one close_notify on the wire when the application closes an established
+   open connection ---------- *)
 
+Lemma nth_le_sum {A} (f : A -> nat) l i u : nth_error l i = Some u -> f u <= list_sum (map f l).
+Proof.
+  revert i; induction l as [|a l IH]; intros [|i] H; cbn [nth_error map] in *; try discriminate;
+    rewrite list_sum_cons_.
+  - inversion H; subst. lia.
+  - specialize (IH i H). lia.
+Qed.
+
+(* thread i went on past the early return of close(true) on an established connection *)
 Definition won (i : nat) (g : cfg) : Prop :=
   est (cn g) = true /\
   match nth_error (us g) i with
   | Some (UC (CCan1 true _)) | Some (UC (CCan2 true _)) | Some (UC CEst)
-  | Some (UC (CNotify true)) => True
-  | Some (UC CSock) | Some (UC CRet) | Some UWait | Some UDone => 1 <= cn_close (cn g)
+  | Some (UC (CNotify true)) => once_sent (cn g)
+  | Some (UC CSock) | Some (UC CRet) | Some UWait | Some UDone => 1 <= total (cn g)
   | _ => False
   end.
 
-Lemma won_exec i o g : won i g -> won i (exec o g).
+(* while such a thread has not reached nextConn.Close() the socket is open *)
+Lemma winner_sock_open i g u :
+  Inv g -> nth_error (us g) i = Some u -> u_s u = 1 -> sock_closed (cn g) = false.
 Proof.
-  intros [E W]. destruct g as [c h r l]. cbn in *.
+  intros I N U.
+  destruct (closed (cn g)) eqn:C.
+  - pose proof (i_sock _ I C) as S. unfold sockers in S.
+    pose proof (nth_le_sum u_s _ _ _ N) as L. rewrite (i_sc _ I).
+    replace (sock_closes (cn g)) with 0 by lia. reflexivity.
+  - destruct (i_open _ I C) as (_ & _ & _ & Z). rewrite (i_sc _ I), Z. reflexivity.
+Qed.
+
+Lemma won_exec i o g : Inv g -> won i g -> won i (exec o g).
+Proof.
+  intros HI [E W]. pose proof (winner_sock_open i g) as SO. specialize (SO).
+  destruct g as [c h r l]. cbn in *.
   destruct o as [|j| |b|e]; cbn.
-  - split; auto. cbn.
+  - unfold won; cbn. split; auto.
     destruct (nth_error l i) eqn:En; [|contradiction].
     rewrite nth_error_app1; [rewrite En; auto|]. apply nth_error_Some. congruence.
   - destruct (nth_error l j) as [u|] eqn:Ej; [|split; auto].
     destruct (user_step u c) as [u' c'] eqn:Es.
-    pose proof (user_step_mono u c) as M. rewrite Es in M. cbn in M. destruct M as (M1 & M2 & _).
+    pose proof (user_step_mono u c) as M. rewrite Es in M. cbn in M.
+    destruct M as (M1 & M2 & _ & M4 & M5).
     unfold won; cbn. split; [congruence|].
     destruct (Nat.eq_dec j i) as [->|Hne].
     + rewrite (upd_nth_same _ _ _ _ Ej). rewrite Ej in W.
       destruct u as [p| |]; cbn in Es.
       * destruct p as [|w k|w k| |e| |]; try contradiction.
-        -- destruct w; try contradiction. inversion Es; subst. exact I.
-        -- destruct w; try contradiction. inversion Es; subst. exact I.
-        -- inversion Es; subst. rewrite E. exact I.
-        -- destruct e; try contradiction. inversion Es; subst. cbn. lia.
-        -- inversion Es; subst. cbn. lia.
+        -- destruct w; try contradiction. inversion Es; subst. auto.
+        -- destruct w; try contradiction. inversion Es; subst. auto.
+        -- inversion Es; subst. rewrite E. auto.
+        -- destruct e; try contradiction. inversion Es; subst. cbn.
+           unfold send_cn_close, once_sent, total in *.
+           destruct (cn_once c) eqn:O; cbn; [auto|lia].
+        -- inversion Es; subst. unfold total in *; cbn in *. lia.
         -- destruct (hs_open c); inversion Es; subst; lia.
       * destruct (hs_open c); inversion Es; subst; lia.
       * inversion Es; subst. lia.
     + rewrite (upd_nth_other _ _ _ _ Hne).
       destruct (nth_error l i) as [[[|[] ?|[] ?| |[]| |]| |]|]; auto; lia.
   - destruct (reader_step r c) as [r' c'] eqn:Es.
-    pose proof (reader_step_mono r c) as M. rewrite Es in M. cbn in M. destruct M as (M1 & M2 & _).
+    pose proof (reader_step_mono r c) as M. rewrite Es in M. cbn in M.
+    destruct M as (M1 & M2 & _ & M4 & M5).
     unfold won; cbn. split; [congruence|].
-    destruct (nth_error l i) as [[[|[] ?|[] ?| |[]| |]| |]|]; auto; lia.
+    destruct (nth_error l i) as [[[|[] ?|[] ?| |[]| |]| |]|] eqn:En; auto; try lia;
+      apply M5; auto; eapply SO; eauto.
   - destruct (hs_step b h r c) as [[h' r'] c'] eqn:Es.
-    pose proof (hs_step_mono b h r c) as M. rewrite Es in M. cbn in M. destruct M as (M1 & M2 & _).
-    unfold won; cbn. split; [congruence|]. rewrite M2. auto.
-  - pose proof (env_step_mono e (mkCfg c h r l)) as M. cbn in M. destruct M as (M1 & M2 & _ & M4).
-    split; [auto|]. rewrite M4, M2. cbn. auto.
+    pose proof (hs_step_mono b h r c) as M. rewrite Es in M. cbn in M.
+    destruct M as (M1 & _ & _ & M4 & M5).
+    unfold won, once_sent in *; cbn. split; [congruence|]. rewrite M4, M5. auto.
+  - pose proof (env_step_mono e (mkCfg c h r l)) as M. cbn in M.
+    destruct M as (M1 & _ & _ & M4 & M5 & M6).
+    unfold won, once_sent in *. split; [auto|]. rewrite M4, M5, M6. cbn. auto.
 Qed.
 
-Lemma won_run i ops g : won i g -> won i (run ops g).
-Proof. revert g; induction ops as [|o ops IH]; intros g H; cbn; auto using won_exec. Qed.
+Lemma won_run i ops g : Inv g -> won i g -> won i (run ops g).
+Proof.
+  revert g; induction ops as [|o ops IH]; intros g I H; cbn; auto.
+  apply IH; [apply inv_exec, I|apply won_exec; auto].
+Qed.
 
+(* A Close() that starts on an established, not yet closed connection and returns: exactly one
+   close_notify record of this endpoint is on the wire - its own, or the read loop's reply to the
+   peer's close_notify if that got to the sync.Once first. *)
 Theorem sent_when_user_closes_established_open d v ops1 ops2 i :
   let g1 := run ops1 (cfg0 d v) in
   est (cn g1) = true -> closed (cn g1) = false -> nth_error (us g1) i = Some (UC CLock) ->
   let g2 := run (StepUser i :: ops2) g1 in
-  nth_error (us g2) i = Some UDone -> cn_close (cn g2) = 1.
+  nth_error (us g2) i = Some UDone -> cn_close (cn g2) + cn_reply (cn g2) = 1.
 Proof.
   intros g1 E C N g2 D.
   pose proof (inv_reachable d v ops1) as I1. fold g1 in I1.
   assert (B : by_user (cn g1) = false).
   { destruct (by_user (cn g1)) eqn:B; auto. pose proof (i_user _ I1 B). congruence. }
+  assert (O : once_sent (cn g1)).
+  { intro O1. unfold total. destruct (i_once2 _ I1 O1) as [X|X]; [exact X|].
+    (* the socket of a connection that is not closed has never been closed *)
+    destruct (i_open _ I1 C) as (_ & _ & _ & Z). rewrite (i_sc _ I1), Z in X. discriminate. }
   assert (W : won i (exec (StepUser i) g1)).
   { clear D g2. destruct g1 as [c h r l]. cbn in *. rewrite N. cbn. rewrite B, C. cbn.
-    unfold won; cbn. split; [exact E|]. rewrite (upd_nth_same _ _ _ _ N). exact I. }
-  pose proof (won_run i ops2 _ W) as [_ W2].
+    unfold won; cbn. split; [exact E|]. rewrite (upd_nth_same _ _ _ _ N). exact O. }
+  pose proof (won_run i ops2 _ (inv_exec _ _ I1) W) as [_ W2].
   unfold g2 in D. cbn [run] in D. rewrite D in W2.
   assert (I2 : Inv (run ops2 (exec (StepUser i) g1))) by (apply inv_run, inv_exec, I1).
-  pose proof (i_cn _ I2). unfold g2. cbn [run]. lia.
+  pose proof (i_once _ I2) as X. unfold g2. cbn [run]. unfold total in W2.
+  destruct (cn_once (cn (run ops2 (exec (StepUser i) g1)))); lia.
 Qed.
-
 
 (* ---------- close_notify from close() only for an application Close() on an established
    connection ---------- *)
@@ -512,13 +572,13 @@ Proof.
       * apply forallb_upd; cbn; [|rewrite orb_true_r; reflexivity].
         eapply forallb_impl; [|exact J3]. intros x. destruct (u_pre x); cbn; auto.
         intros _. apply orb_true_r. }
-    all: rewrite ?andb_true_r;
+    all: rewrite ?andb_true_r; unfold send_cn_close;
       repeat match goal with |- context [if ?b then _ else _] => destruct b eqn:? end;
       constructor; cbn in *; auto; try (apply forallb_upd; auto);
       try exact J2; try (intros _; split; [exact P3|exact P1]);
       try (cbn; destruct (est c); reflexivity).
   - destruct r as [| | |k|p| |]; [| | |destruct k|destruct p as [|w i|w i| |e| |]| |]; cbn;
-      rewrite ?andb_false_r;
+      rewrite ?andb_false_r; unfold send_cn_reply;
       repeat match goal with
              | |- context [if ?b then _ else _] => destruct b eqn:?
              end; constructor; cbn in *; auto; try congruence.
@@ -628,32 +688,15 @@ Proof.
   intros D k. rewrite D. cbn. destruct (dec_closed c); cbn; intuition.
 Qed.
 
-(* Write (DTLS 1.2): ready as soon as closed holds; without an expired write deadline every
-   ready branch yields a closed-class error (ErrConnClosed / net closed) *)
-Theorem write_unblocks_v12 c :
-  closed c = true -> v13 c = false ->
+(* Write (DTLS 1.2 and 1.3): ready as soon as closed holds; without an expired write deadline
+   every ready branch yields a closed-class error (ErrConnClosed / net closed) *)
+Theorem write_unblocks c :
+  closed c = true ->
   In KClosed (write_ready c) /\
   (wr_dl c = false -> forall k, In k (write_ready c) -> close_class k = true).
 Proof.
-  intros C V. unfold write_ready. rewrite C, V. cbn. split; [left; reflexivity|].
+  intros C. unfold write_ready. rewrite C. cbn. split; [left; reflexivity|].
   intros D k. rewrite D. cbn. destruct (sock_closed c); cbn; intuition; subst; reflexivity.
-Qed.
-
-(* Write (DTLS 1.3): ready as soon as closed holds, but the branch that is ready first yields
-   context.Canceled, which is not a closed/EOF-class error: the ideal statement fails on the
-   model of the code.  Witness: established connection, application Close() has run its
-   closeLock region. *)
-Theorem write_unblocks_v13_ready c :
-  closed c = true -> v13 c = true -> In KCanceled (write_ready c).
-Proof. intros C V. unfold write_ready. rewrite C, V. left. reflexivity. Qed.
-
-Theorem write_unblocks_closed_class_v13_refuted :
-  exists ops, let c := cn (run ops (cfg0 false true)) in
-    closed c = true /\ wr_dl c = false /\
-    exists k, In k (write_ready c) /\ close_class k = false.
-Proof.
-  exists (ops_established ++ [SpawnClose; StepUser 0]). vm_compute.
-  repeat split; auto. exists KCanceled. split; [left; reflexivity|reflexivity].
 Qed.
 
 (* HandshakeContext: the result classes after close; the select itself is woken by the read
@@ -810,7 +853,7 @@ Proof.
       pose proof (user_step_mono u c) as M. destruct (user_step u c). cbn in *. tauto.
     + pose proof (reader_step_mono r c) as M. destruct (reader_step r c). cbn in *. tauto.
     + pose proof (hs_step_mono b h r c) as M. destruct (hs_step b h r c) as [[? ?] ?]. cbn in *.
-      destruct M as (_ & _ & M). congruence.
+      destruct M as (_ & _ & M & _). congruence.
   - cbn in P. destruct g as [c h r l]. cbn in *.
     destruct (i_open _ I C) as (A & _). cbn in A.
     destruct o as [|i| |b|e]; cbn in *; try discriminate.
@@ -868,7 +911,7 @@ Definition open_established (g : cfg) : Prop :=
   closed (cn g) = false /\ by_user (cn g) = false /\ est (cn g) = true /\ hs_open (cn g) = false /\
   installed (cn g) = true /\ can_hs (cn g) = false /\ can_rd (cn g) = false /\
   sock_closed (cn g) = false /\ sock_closes (cn g) = 0 /\ cn_close (cn g) = 0 /\
-  cn_reply (cn g) = 0 /\ first_err (cn g) = None /\ dec_closed (cn g) = false /\
+  cn_reply (cn g) = 0 /\ cn_once (cn g) = false /\ first_err (cn g) = None /\ dec_closed (cn g) = false /\
   hs g = HRet HOk /\ rd g = RRead /\ us g = [].
 
 Definition run_user_close : list op :=
@@ -879,20 +922,20 @@ Definition run_recv_close_notify : list op := Env ERecvCN :: repeat StepReader 1
 (* everything except who closed, the close_notify counters and the recorded first error *)
 Definition strip (c : conn) : conn :=
   mkConn (closed c) false (est c) (hs_open c) (installed c) (can_hs c) (can_rd c)
-    (sock_closed c) (sock_closes c) 0 0 None (dec_closed c)
+    (sock_closed c) (sock_closes c) 0 0 false None (dec_closed c)
     (rd_dl c) (wr_dl c) (hctx c) (dual c) (v13 c).
 
 Definition oe_cfg (a b c d e : bool) : cfg :=
-  mkCfg (mkConn false false true false true false false false 0 0 0 None false a b c d e)
+  mkCfg (mkConn false false true false true false false false 0 0 0 false None false a b c d e)
         (HRet HOk) RRead [].
 
 Lemma open_established_shape g :
   open_established g -> exists a b c d e, g = oe_cfg a b c d e.
 Proof.
-  intros (H1 & H2 & H3 & H4 & H5 & H6 & H7 & H8 & H9 & H10 & H11 & H12 & H13 & H14 & H15 & H16).
-  destruct g as [c h r l]. destruct c as [f1 f2 f3 f4 f5 f6 f7 f8 f9 f10 f11 f12 f13 f14 f15 f16 f17 f18].
+  intros (H1 & H2 & H3 & H4 & H5 & H6 & H7 & H8 & H9 & H10 & H11 & H11b & H12 & H13 & H14 & H15 & H16).
+  destruct g as [c h r l]. destruct c as [f1 f2 f3 f4 f5 f6 f7 f8 f9 f10 f11 f11b f12 f13 f14 f15 f16 f17 f18].
   unfold cn, hs, rd, us, closed, by_user, est, hs_open, installed, can_hs, can_rd, sock_closed,
-    sock_closes, cn_close, cn_reply, first_err, dec_closed in *.
+    sock_closes, cn_close, cn_reply, cn_once, first_err, dec_closed in *.
   subst. exists f14, f15, f16, f17, f18. reflexivity.
 Qed.
 
